@@ -6,6 +6,7 @@ package main
 
 import (
 	"fmt"
+	"os"
 
 	"bytes"
 	"sort"
@@ -17,6 +18,11 @@ import (
 	"github.com/nspcc-dev/neo-go/pkg/util"
 	"go.uber.org/zap"
 )
+
+// dropWithoutReload: SELF-TEST ONLY (never set by ./check): a dropped block omits DropMPTBatch, as the
+// node did before /repo c513b1a. The driver then runs the old rule (`dropold`), nothing is folded into
+// known keys, and the run must report the consequences (wrong roots, counts, missing nodes, panics).
+var dropWithoutReload = os.Getenv("MPTRC_DROP_WITHOUT_RELOAD") == "1"
 
 type change struct {
 	key []byte
@@ -276,6 +282,11 @@ func (x *modM) Block(idx uint32, ops []subop, commit bool) (root util.Uint256, o
 				panic(err)
 			}
 			x.leakDisk = diffRaw(before, readRawStore(x.ps), true)
+		}
+		if !dropWithoutReload {
+			// what storeBlock does on every error path after AddMPTBatch (blockchain.go, /repo c513b1a)
+			x.mod.DropMPTBatch()
+			x.inMemory = false
 		}
 		return sr.Root, ""
 	}
